@@ -305,6 +305,10 @@ fn decoder(f: u32, b: &[u8]) -> Option<Option<B>> {
             .and_then(|a| ct(sapling::zip32::IncomingViewingKey::from_bytes(&a)))
             .map(|k| k.to_bytes().to_vec()),
         18 => arr(&b).and_then(|a| ExternalIvk::deserialize(&a).ok()).map(|k| k.serialize()),
+        24 => arr(&b)
+            .and_then(|a| ct(orchard::Address::from_raw_address_bytes(&a)))
+            .map(|k| k.to_raw_address_bytes().to_vec()),
+        25 => arr(&b).and_then(|a| sapling::PaymentAddress::from_bytes(&a)).map(|k| k.to_bytes().to_vec()),
         _ => None,
     })
 }
@@ -1823,6 +1827,165 @@ fn gap_cases(
 }
 
 // ---------------------------------------------------------------------------------------------
+// unified addresses built from raw receivers (incl. P2SH and unknown receivers, which no key of
+// the library derives) and taken through the decode path of zcash_keys
+
+fn p_uaddr(ua: &UnifiedAddress) -> String {
+    let o = ua.orchard().map(|a| a.to_raw_address_bytes().to_vec());
+    let s = ua.sapling().map(|a| a.to_bytes().to_vec());
+    let t = match ua.transparent() {
+        None => "None".to_string(),
+        Some(a) => format!("(Some {})", p_taddr(a)),
+    };
+    let unk: Vec<(u32, B)> = ua.unknown().to_vec();
+    format!("(mkUaddr {} {} {} {})", sx(&o), sx(&s), t, p_items(&unk))
+}
+fn receiver_of(tc: u32, d: &[u8]) -> Option<unified::Receiver> {
+    Some(match tc {
+        0 => unified::Receiver::P2pkh(arr(d)?),
+        1 => unified::Receiver::P2sh(arr(d)?),
+        2 => unified::Receiver::Sapling(arr(d)?),
+        3 => unified::Receiver::Orchard(arr(d)?),
+        t => unified::Receiver::Unknown { typecode: t, data: d.to_vec() },
+    })
+}
+fn item_of(r: &unified::Receiver) -> (u32, B) {
+    match r {
+        unified::Receiver::P2pkh(d) => (0, d.to_vec()),
+        unified::Receiver::P2sh(d) => (1, d.to_vec()),
+        unified::Receiver::Sapling(d) => (2, d.to_vec()),
+        unified::Receiver::Orchard(d) => (3, d.to_vec()),
+        unified::Receiver::Unknown { typecode, data } => (*typecode, data.clone()),
+    }
+}
+
+fn ua_conv_case(cx: &mut Ctx, net: Net, items: &[(u32, B)]) {
+    let rs: Option<Vec<unified::Receiver>> = items.iter().map(|(t, d)| receiver_of(*t, d)).collect();
+    let Some(rs) = rs else { return };
+    // the container sorts and checks; only valid receiver lists reach zcash_keys
+    let Ok(cont) = unified::Address::try_from_items(rs) else {
+        cx.st.hit("ua_container_rejected");
+        return;
+    };
+    let sorted: Vec<(u32, B)> = cont.items_as_parsed().iter().map(item_of).collect();
+    let mut tab = Tab::default();
+    for (t, d) in &sorted {
+        if *t == 3 {
+            tab.dec(24, d);
+        } else if *t == 2 {
+            tab.dec(25, d);
+        }
+    }
+    let nt = net.network_type();
+    let c2 = cont.clone();
+    let res = catch(move || UnifiedAddress::try_from(c2));
+    let o = match &res {
+        None => PANIC.to_string(),
+        Some(Err(_)) => "(Err tt)".to_string(),
+        Some(Ok(ua)) => {
+            let ua2 = ua.clone();
+            match catch(move || ua2.to_zcash_address(nt).to_string()) {
+                None => PANIC.to_string(),
+                Some(s) => match unified::Address::decode(&s) {
+                    Ok((_, back)) => {
+                        let re: Vec<(u32, B)> = back.items_as_parsed().iter().map(item_of).collect();
+                        ok(format!("({}, {})", p_uaddr(ua), p_items(&re)))
+                    }
+                    Err(_) => ok(format!("({}, {})", p_uaddr(ua), p_items(&[(999_999_999, vec![])]))),
+                },
+            }
+        }
+    };
+    case(format!("CExtra (XUa {} {} {})", tab.print(), p_items(&sorted), o));
+    cx.st.hit("ua_conv");
+    // the same through the string API: Address::decode / encode, AddressCodec, receiver_types
+    if let Some(Ok(ua)) = res {
+        let s = cont.encode(&nt);
+        let via = Address::decode(&net, &s);
+        let mut good = matches!(&via, Some(Address::Unified(u)) if *u == ua);
+        good &= via.map(|a| a.encode(&net) == s).unwrap_or(false);
+        good &= <UnifiedAddress as AddressCodec<Net>>::decode(&net, &s).map(|u| u == ua).unwrap_or(false);
+        let want: Vec<u32> = {
+            // receiver_types lists orchard, sapling, transparent, unknown
+            let mut v = vec![];
+            for t in [3u32, 2, 1, 0] {
+                if sorted.iter().any(|(c, _)| *c == t) {
+                    v.push(t);
+                }
+            }
+            v.extend(sorted.iter().filter(|(c, _)| *c > 3).map(|(c, _)| *c));
+            v
+        };
+        let got: Vec<u32> = ua.receiver_types().into_iter().map(u32::from).collect();
+        good &= got == want;
+        case(format!("CCrypto 10 {}", boolc(good)));
+    }
+}
+
+fn ua_conv_cases(cx: &mut Ctx, net: Net, uivk: &UnifiedIncomingViewingKey, n: usize) {
+    let Ok((ua, _)) = uivk.find_address(di(0), UnifiedAddressRequest::AllAvailableKeys) else { return };
+    let o = ua.orchard().map(|a| a.to_raw_address_bytes().to_vec());
+    let s = ua.sapling().map(|a| a.to_bytes().to_vec());
+    let t = ua.transparent().map(|a| match a {
+        TransparentAddress::PublicKeyHash(h) | TransparentAddress::ScriptHash(h) => h.to_vec(),
+    });
+    for k in 0..n {
+        let mut items: Vec<(u32, B)> = vec![];
+        // transparent: none / P2PKH / P2SH (deterministic rotation so P2SH is always present)
+        match k % 3 {
+            1 => items.push((0, t.clone().unwrap_or_else(|| cx.rng.bytes(20)))),
+            2 => items.push((1, cx.rng.bytes(20))),
+            _ => {}
+        }
+        let shape = (k / 3) % 4;
+        if shape != 1 {
+            if let Some(o) = &o {
+                items.push((3, o.clone()));
+            }
+        }
+        if shape != 2 {
+            if let Some(s) = &s {
+                items.push((2, s.clone()));
+            }
+        }
+        if cx.rng.chance(1, 2) {
+            let mut tcs: Vec<u32> = (0..1 + cx.rng.below(2))
+                .map(|_| *cx.rng.pick(&[4u32, 5, 0xfc, 0xfd, 0xffff, 0x10000, 0x0200_0000]))
+                .collect();
+            tcs.sort();
+            tcs.dedup();
+            for tc in tcs {
+                let n = cx.rng.below(70) as usize;
+                items.push((tc, cx.rng.bytes(n)));
+            }
+        }
+        // occasionally a corrupted shielded receiver (rejected by the primitive decoder), or both
+        // transparent kinds (rejected by the container)
+        match cx.rng.below(12) {
+            0 => {
+                if let Some(it) = items.iter_mut().find(|(c, _)| *c == 2 || *c == 3) {
+                    let i = cx.rng.below(it.1.len() as u64) as usize;
+                    it.1[i] ^= 1 << cx.rng.below(8);
+                }
+            }
+            1 => {
+                if let Some(it) = items.iter_mut().find(|(c, _)| *c == 3) {
+                    for x in it.1[11..].iter_mut() {
+                        *x = 0xff;
+                    }
+                }
+            }
+            2 => {
+                items.push((0, cx.rng.bytes(20)));
+                items.push((1, cx.rng.bytes(20)));
+            }
+            _ => {}
+        }
+        ua_conv_case(cx, net, &items);
+    }
+}
+
+// ---------------------------------------------------------------------------------------------
 
 fn main() {
     if std::env::var_os("C11_DUMP").is_some() {
@@ -2100,6 +2263,8 @@ fn main() {
             legacy_cases(&mut cx, usk);
         }
         ua_codec_cases(&mut cx, net, &uivk);
+        let n_ua = if a.search || a.thorough() { 48 } else { 24 };
+        ua_conv_cases(&mut cx, net, &uivk, n_ua);
         let n_gap = if a.search || a.thorough() { 120 } else { 60 };
         gap_cases(&mut cx, net, &isubs, &fsubs, &reqs, n_gap);
     }
